@@ -606,6 +606,24 @@ Proof.
   apply nth_In. exact Hi.
 Qed.
 
+(* one sweep on gen-vectors, whatever the tie-breaking: its value is below the next horizon's optimum *)
+Theorem backup_value_le j G u a :
+  wf0 -> genl j G -> G <> [] -> nonneg u -> (a < nAp)%nat ->
+  backup_value p tO rM G u a <= Wopt (S j) u.
+Proof.
+  intros W HG Hne Hu Ha. rewrite Wopt_S.
+  destruct (maxf_all_some nAp (fun a => dot u (fun s => rM s a) +
+      gamma m * sumf nOp (fun o => Wopt j (step u a o)))) as (x & Hx); [lia|].
+  rewrite Hx. cbn [odflt]. eapply Rle_trans; [|apply (maxf_ge _ _ _ _ a Hx Ha eq_refl)].
+  unfold backup_value. numR. apply Rplus_le_compat_l, Rmult_le_compat_l; [apply (w0_g W)|].
+  apply sumf_le. intros o Ho.
+  destruct (maxf_all_some (length G) (fun i => dot (step u a o) (untab (nth i G [])))) as (y & Hy).
+  { destruct G; [congruence|simpl; lia]. }
+  unfold alpha_value. rewrite Hy. cbn [odflt].
+  apply (alpha_value_le j G (step u a o) y _ HG Hy). intros al Hal.
+  apply pbvi_lower; auto. apply step_nonneg; auto.
+Qed.
+
 End Theory.
 
 (* ------------------------------------------------------------------ *)
